@@ -300,40 +300,85 @@ func c06R5(c *Ctx) {
 	c.verdict(okc, rule, "interrupt-cancels", c.pos(h.Pos()), "cancel() follows the first interrupt", "the interrupt handler does not cancel the run context after the first interrupt")
 	// runWorkflow: cancel passed to the handler comes from the WithCancel whose ctx is passed to Run
 	okPass := false
+	// the watcher is started by runWorkflow itself or by a helper it calls (which then hands the context back)
+	starters := []*ssa.Function{rw}
 	eachInstr(rw, func(r instrRef) {
-		gi, ok := r.I.(*ssa.Go)
-		if !ok || gi.Call.StaticCallee() != h {
-			return
-		}
-		for _, a := range gi.Call.Args {
-			if derivesFrom(a, func(v ssa.Value) bool {
-				ex, ok := v.(*ssa.Extract)
-				if !ok || ex.Index != 1 {
-					return false
-				}
-				call, ok := ex.Tuple.(*ssa.Call)
-				if !ok || calleeName(call.Common()) != "context.WithCancel" {
-					return false
-				}
-				// the ctx of the same call reaches the Run call
-				used := false
-				eachInstr(rw, func(r2 instrRef) {
-					cc := callCommon(r2.I)
-					if cc != nil && cc.IsInvoke() && cc.Method.Name() == "Run" && len(cc.Args) > 0 {
-						if derivesFrom(cc.Args[0], func(y ssa.Value) bool {
-							e2, ok := y.(*ssa.Extract)
-							return ok && e2.Tuple == ssa.Value(call) && e2.Index == 0
-						}) {
-							used = true
-						}
-					}
-				})
-				return used
-			}) {
-				okPass = true
+		if cc := callCommon(r.I); cc != nil {
+			if f := cc.StaticCallee(); f != nil && isRepoFn(f) && f != h && len(f.Blocks) > 0 {
+				starters = append(starters, f)
 			}
 		}
 	})
+	// ctxReachesRun: the context of WithCancel call `call` (made in `in`) is what runWorkflow passes to Run
+	ctxReachesRun := func(call *ssa.Call, in *ssa.Function) bool {
+		isCtx := func(y ssa.Value) bool {
+			e2, ok := y.(*ssa.Extract)
+			return ok && e2.Tuple == ssa.Value(call) && e2.Index == 0
+		}
+		used := false
+		eachInstr(rw, func(r2 instrRef) {
+			cc := callCommon(r2.I)
+			if cc == nil || !cc.IsInvoke() || cc.Method.Name() != "Run" || len(cc.Args) == 0 {
+				return
+			}
+			if derivesFrom(cc.Args[0], func(y ssa.Value) bool {
+				if in == rw {
+					return isCtx(y)
+				}
+				// result of the helper which is, on all its returns, the context
+				var hc *ssa.Call
+				idx := 0
+				switch x := y.(type) {
+				case *ssa.Extract:
+					hc, _ = x.Tuple.(*ssa.Call)
+					idx = x.Index
+				case *ssa.Call:
+					hc = x
+				}
+				if hc == nil || hc.Common().StaticCallee() != in {
+					return false
+				}
+				n, all := 0, true
+				eachInstr(in, func(r3 instrRef) {
+					if ret, ok := r3.I.(*ssa.Return); ok {
+						n++
+						rs := retResults(ret)
+						if idx >= len(rs) || !derivesFrom(rs[idx], isCtx) {
+							all = false
+						}
+					}
+				})
+				return n > 0 && all
+			}) {
+				used = true
+			}
+		})
+		return used
+	}
+	for _, st := range starters {
+		st := st
+		eachInstr(st, func(r instrRef) {
+			gi, ok := r.I.(*ssa.Go)
+			if !ok || gi.Call.StaticCallee() != h {
+				return
+			}
+			for _, a := range gi.Call.Args {
+				if derivesFrom(a, func(v ssa.Value) bool {
+					ex, ok := v.(*ssa.Extract)
+					if !ok || ex.Index != 1 {
+						return false
+					}
+					call, ok := ex.Tuple.(*ssa.Call)
+					if !ok || calleeName(call.Common()) != "context.WithCancel" {
+						return false
+					}
+					return ctxReachesRun(call, st)
+				}) {
+					okPass = true
+				}
+			}
+		})
+	}
 	c.verdict(okPass, rule, "interrupt-wired", c.pos(rw.Pos()), "the handler gets the cancel function of the context the workflow runs with", "the interrupt handler is not wired to the context the workflow runs with")
 }
 
